@@ -118,8 +118,24 @@ Definition forward_same_ok (p : program) (vd : verdict) : bool :=
     end
   else true.
 
+(* every assignment to x is plain *)
+Definition plain_on (x : var) (p : program) : bool :=
+  forallb (fun l => negb (assigns x l) || eager_plain_line l) p.
+
+(* the lines strictly between line i and line j, i < j *)
+Definition between (p : program) (i j : nat) : program := firstn (j - S i) (skipn (S i) p).
+
+(* The guard of the partial theorem, for a verdict about variable x that was
+   emitted at line hi = max(flagged, because):
+   - no assignment to x up to and including line hi is ':=' or '!=' with a '$' in its text
+   - if an earlier line is flagged: no ':=' / '!=' with a '$' strictly between the two lines
+   - the two conditions above *)
 Definition guard (p : program) (vd : verdict) : bool :=
-  eager_plain p && backward_default_ok p vd && forward_same_ok p vd.
+  let lo := Nat.min (vd_flagged vd) (vd_because vd) in
+  let hi := Nat.max (vd_flagged vd) (vd_because vd) in
+  plain_on (line_var p (vd_flagged vd)) (firstn (S hi) p) &&
+  (if Nat.ltb (vd_flagged vd) (vd_because vd) then eager_plain (between p lo hi) else true) &&
+  backward_default_ok p vd && forward_same_ok p vd.
 
 (* ----- the statement ----- *)
 
@@ -128,3 +144,20 @@ Definition verdict_sound_on (P : program -> verdict -> Prop) : Prop :=
   forall (p : program) (vs : list verdict) (vd : verdict),
     wf_program p = true -> check p = Ok vs -> In vd vs -> P p vd ->
     deletable p (vd_flagged vd).
+
+(* ----- reads block verdicts ----- *)
+
+(* what happened last to x in the lines so far: nothing, a use ${x} in the value
+   of an assignment, or an assignment to x (within one line the assignment comes
+   before the uses of its value) *)
+Definition mention (x : var) (acc : action) (l : line) : action :=
+  match l_body l with
+  | None => acc
+  | Some a =>
+      if existsb (str_eqb x) (uses (a_val a)) then ARead
+      else if str_eqb (a_var a) x then AWrite else acc
+  end.
+Definition last_mention (x : var) (pre : program) : action := fold_left (mention x) pre ANone.
+
+(* the line at which a verdict is emitted is the later of its two lines *)
+Definition emitted_at (vd : verdict) : nat := Nat.max (vd_flagged vd) (vd_because vd).
